@@ -293,6 +293,12 @@ class Sched:
                 if not dls:
                     self.outcome = "deadlock"
                     return "deadlock"
+                if self.fast_forward and self.all_idle(live) and not any(t.deadline is not None and not t.is_poll for t in live) and not any(d > self.now for d in self.timer_deadlines()):
+                    # only pollers are left, each completed a full iteration
+                    # that changed nothing, and no timer can ever fire: they
+                    # spin forever
+                    self.outcome = "livelock"
+                    return "livelock"
                 self._advance_idle(live)
                 continue
             if len(cands) > 1:
@@ -349,8 +355,11 @@ class Sched:
             if not alive:
                 break
             for t in alive:
-                if not t.greenlet:  # never started
-                    t.greenlet.throw(SimKilled)
+                if not t.greenlet:  # never started: killing it raises in the caller
+                    try:
+                        t.greenlet.throw(SimKilled)
+                    except SimKilled:
+                        pass
                     continue
                 try:
                     self.current = t
